@@ -136,3 +136,25 @@ Theorem C05_translated_source_is_model :
   (forall ph i bs st, gen_step_i ph i bs st = step_i guards_sound ph i bs st) /\
   (forall g c p, gen_verify g c p = verify guards_sound g c p).
 Proof. exact (conj gen_step_i_eq gen_verify_eq). Qed.
+
+(** ** the documented machine as a readable specification: Doc/Spec.v gives ONE RULE PER DOCUMENTED INSTRUCTION ([doc_rel]: required stack shape,
+       operand bytes, side condition, effect, and the document's "constructed term is well-formed" rule) and the three-phase acceptance
+       [doc_accepts]; it defines exactly the transitions / acceptances of the executable documented machine, so the refinement reads:
+       whatever the rule-by-rule specification accepts, the translated source accepts, with the same final stack, memory and claims *)
+From Pi2 Require Import Doc.Spec.
+Theorem C05_spec_is_machine :
+  (forall ph i bs st bs' st', doc_step_i ph i bs st = Some (bs', st') <-> doc_rel ph i bs st bs' st') /\
+  (forall g c p st, doc_verify g c p = Some st <-> doc_accepts g c p st).
+Proof. exact (conj doc_rel_iff doc_verify_iff). Qed.
+Print Assumptions C05_spec_is_machine.
+Theorem C05_spec_refines_translated_source :
+  forall gamma cl pr st, doc_accepts gamma cl pr st -> gen_verify gamma cl pr = Some st.
+Proof. intros gamma cl pr st H. apply C05_doc_refines_translated_source. apply doc_verify_iff. exact H. Qed.
+Print Assumptions C05_spec_refines_translated_source.
+(** and conversely, up to the one extra check (results of Instantiate / Substitution; finding D16): what the source accepts and whose
+    constructed terms are all well-formed in the document's sense, the specification accepts *)
+Theorem C05_translated_source_refines_spec_partial :
+  forall gamma cl pr st, rc_verify gamma cl pr = Some st -> doc_accepts gamma cl pr st.
+Proof. intros gamma cl pr st H. apply doc_verify_iff. rewrite doc_verify_rc. exact H. Qed.
+Example C05_spec_nonvacuous : exists st, doc_accepts [] ok_claim ok_proof st.
+Proof. destruct C05_nonvacuous as [st [H _]]. exists st. apply doc_verify_iff. exact H. Qed.
